@@ -10,19 +10,20 @@ PROOF_MODULES = ["GrpcProofs.Properties.C27"]
 THEOREMS = ["GrpcProofs.C27." + t for t in (
     "payload_format_constants",
     "encoding_implies_flag_client", "flag_iff_encoding_client_partial", "flag_iff_encoding_server_partial",
-    "empty_message_flag_clear", "flag_iff_encoding_counterexample_empty", "flag_iff_encoding_counterexample_legacy_identity",
+    "empty_message_flag_clear", "flag_iff_encoding_counterexample_empty",
     "server_only_advertised_or_used_partial", "server_only_advertised_or_used_counterexample",
     "unsupported_is_unimplemented_server", "unsupported_is_internal_client", "flagged_identity_is_internal",
     "never_deliver_undecoded", "roundtrip_client_to_server", "roundtrip_server_to_client", "toy_roundtrip")]
 DESIGN_REF = "DESIGN.md section 8, C27"
 TECHNIQUE = ("Lean 4: decision model of both endpoints (client stream open/send/receive, server stream open/receive/SetSendCompressor/send) "
              "with compressors as a parameter; theorems for all registries, option combinations, header values and payloads by case "
-             "analysis; counterexample theorems for the two clauses the unchanged code violates; tie T2: real client<->real server with "
+             "analysis; counterexample theorems for the literal readings the code does not satisfy (empty message, legacy RPCCompressor); tie T2: real client<->real server with "
              "an HTTP/2 wire tap, hand-written HTTP/2 client -> real server, real client -> hand-written HTTP/2 server, over the finite grid; "
              "T4: payloadFormat constants")
 LEVEL_TEXT = ("Machine-checked proofs about a model of grpc-go's compression negotiation that is diffed, wire byte for wire byte, against "
               "the real client and server on every run: compressed flag <-> non-identity grpc-encoding for every non-empty message (client: "
-              "always; server: unless the legacy RPCCompressor is combined with SetSendCompressor(identity) - known finding); a server without "
+              "always; server: always, whatever the handler does with SetSendCompressor - the legacy RPCCompressor + SetSendCompressor(identity) "
+              "case was defect F34, fixed in /repo 25f0536); a server without "
               "the legacy RPCCompressor option compresses only with a compressor the client advertised or used (with it: known finding F18); "
               "unsupported request encoding -> UNIMPLEMENTED before the handler, undecodable compressed response -> INTERNAL; whatever is "
               "delivered is the frame's bytes (flag 0) or their decompression by the compressor named in grpc-encoding (flag 1).")
